@@ -16,5 +16,7 @@ for id in $(python3 -c "import json; print(' '.join(c['id'] for c in json.load(o
     echo "FAILED to build $id:"; cat .work/setup.$id.log; fail=1
   fi
 done
+# engine E1 litmus tests (scheduler, explorer, race detector): reported, never fatal for setup
+if ./check e1self > .work/setup.e1self.log 2>&1; then echo "engine E1 self-test: $(tail -1 .work/setup.e1self.log)"; else echo "WARNING: engine E1 self-test failed:"; cat .work/setup.e1self.log; fi
 rm -f .work/setup.*.log
 [ $fail = 0 ] && echo "setup done" || { echo "setup incomplete"; exit 1; }
